@@ -13,6 +13,11 @@
 #include <tao/pegtl.hpp>
 #include <tao/pegtl/contrib/abnf.hpp>
 #include <tao/pegtl/contrib/integer.hpp>
+#include <tao/pegtl/contrib/json.hpp>
+#include <tao/pegtl/contrib/uri.hpp>
+#include <dirent.h>
+#include <fstream>
+#include <sstream>
 #include <tao/pegtl/contrib/raw_string.hpp>
 #include <tao/pegtl/contrib/unescape.hpp>
 #include <tao/pegtl/contrib/uint16.hpp>
@@ -1114,6 +1119,344 @@ static void section_codecs( bool thorough, unsigned seed )
    }
 }
 
+// ------------------------------------------------------------------------------------------------ C14 json, C20 uri
+
+template< typename Rule >
+static int accept_rule( const std::string& w )
+{
+   Blk b( w );
+   memory_input<> in( b.p, b.p + b.n, "src" );
+   try {
+      return parse< seq< Rule, eof > >( in ) ? 1 : 0;
+   }
+   catch( const parse_error& ) {
+      return 2;
+   }
+   catch( ... ) {
+      return 3;
+   }
+}
+
+static void lang_rec( const char* f, const char* rule, const std::string& w, int res )
+{
+   rec_begin( f );
+   W.str( "rule", rule );
+   put_bytes( "w", w );
+   W.kv( "res", res );
+   rec_end();
+}
+
+static void json_one( const std::string& w )
+{
+   lang_rec( "json", "text", w, accept_rule< json::text >( w ) );
+}
+
+struct Gen
+{
+   std::mt19937 rng;
+   explicit Gen( unsigned seed )
+      : rng( seed )
+   {}
+   unsigned r( unsigned n )
+   {
+      return unsigned( rng() % n );
+   }
+   std::string pick( std::initializer_list< const char* > l )
+   {
+      auto it = l.begin();
+      std::advance( it, r( unsigned( l.size() ) ) );
+      return *it;
+   }
+   std::string ws()
+   {
+      return pick( { "", "", "", " ", "\n", "\t ", "\r\n" } );
+   }
+   std::string jstring()
+   {
+      std::string s = "\"";
+      const unsigned n = r( 4 );
+      for( unsigned i = 0; i < n; ++i ) {
+         s += pick( { "a", "z", " ", "\\n", "\\\"", "\\\\", "\\/", "\\u00e9", "\\uD834\\uDD1E", "\\ud800", "\xc3\xa9", "\xe2\x82\xac", "\xf0\x9d\x84\x9e", "\x7f", "0", "[", "}" } );
+      }
+      return s + "\"";
+   }
+   std::string jnumber()
+   {
+      std::string s = pick( { "", "-" } );
+      s += pick( { "0", "1", "9", "10", "123", "9007199254740993" } );
+      s += pick( { "", "", ".0", ".5", ".125" } );
+      s += pick( { "", "", "e1", "E+2", "e-10", "E0" } );
+      return s;
+   }
+   std::string jvalue( int depth )
+   {
+      const unsigned k = r( depth > 0 ? 7u : 5u );
+      switch( k ) {
+         case 0:
+            return "true";
+         case 1:
+            return pick( { "false", "null" } );
+         case 2:
+         case 3:
+            return jnumber();
+         case 4:
+            return jstring();
+         case 5: {
+            std::string s = "[" + ws();
+            const unsigned n = r( 3 );
+            for( unsigned i = 0; i < n; ++i ) {
+               if( i )
+                  s += ws() + "," + ws();
+               s += jvalue( depth - 1 );
+            }
+            return s + ws() + "]";
+         }
+         default: {
+            std::string s = "{" + ws();
+            const unsigned n = r( 3 );
+            for( unsigned i = 0; i < n; ++i ) {
+               if( i )
+                  s += ws() + "," + ws();
+               s += jstring() + ws() + ":" + ws() + jvalue( depth - 1 );
+            }
+            return s + ws() + "}";
+         }
+      }
+   }
+   // single-edit mutations: delete, duplicate, replace by an interesting byte, insert, swap neighbours
+   std::string mutate( const std::string& w, const std::string& interesting )
+   {
+      if( w.empty() )
+         return std::string( 1, interesting[ r( unsigned( interesting.size() ) ) ] );
+      std::string s = w;
+      const std::size_t i = r( unsigned( w.size() ) );
+      switch( r( 5 ) ) {
+         case 0:
+            s.erase( i, 1 );
+            break;
+         case 1:
+            s.insert( i, 1, s[ i ] );
+            break;
+         case 2:
+            s[ i ] = interesting[ r( unsigned( interesting.size() ) ) ];
+            break;
+         case 3:
+            s.insert( i, 1, interesting[ r( unsigned( interesting.size() ) ) ] );
+            break;
+         default:
+            if( i + 1 < s.size() )
+               std::swap( s[ i ], s[ i + 1 ] );
+            break;
+      }
+      return s;
+   }
+};
+
+static void section_json( bool thorough, unsigned seed )
+{
+   const std::string alpha( "{}[]:,\"\\/01-+.etruaf \x1f\xc3\xa9\xed\xa0\xf4\x90", 30 );
+   // exhaustive short strings over the representative bytes (every byte value of the list)
+   vt::for_all_strings( alpha.substr( 0, thorough ? 30 : 24 ), thorough ? 4 : 3, [ & ]( const std::string& w ) {
+      json_one( w );
+   } );
+   for( int c = 0; c < 256; ++c ) {
+      json_one( std::string( 1, char( c ) ) );
+      json_one( std::string( "\"" ) + char( c ) + "\"" );
+      json_one( std::string( "\"\\" ) + char( c ) + "\"" );
+      json_one( std::string( "[1" ) + char( c ) + "2]" );
+      json_one( std::string( 1, char( c ) ) + "1" );
+   }
+   Gen g( seed );
+   const std::string interesting( "{}[]:,\"\\/0123456789-+.eEtrufalsn \t\n\r\x00\x1f\x7f\x80\xbf\xc0\xc3\xa9\xe2\xed\xa0\xf0\xf4\x90\xff", 56 );
+   const int ndocs = thorough ? 20000 : 1500;
+   for( int i = 0; i < ndocs; ++i ) {
+      std::string doc = g.ws() + g.jvalue( 3 ) + g.ws();
+      if( doc.size() > 48 )
+         continue;
+      json_one( doc );
+      for( int m = 0; m < 6; ++m ) {
+         json_one( g.mutate( doc, interesting ) );
+      }
+   }
+   // the repository's own sample documents
+   const char* dir = "/repo/src/test/pegtl/data";
+   if( DIR* d = opendir( dir ) ) {
+      while( dirent* e = readdir( d ) ) {
+         const std::string name = e->d_name;
+         if( name.size() > 5 && name.substr( name.size() - 5 ) == ".json" ) {
+            std::ifstream f( std::string( dir ) + "/" + name, std::ios::binary );
+            std::stringstream ss;
+            ss << f.rdbuf();
+            const std::string w = ss.str();
+            if( w.size() <= 400 ) {
+               json_one( w );
+            }
+         }
+      }
+      closedir( d );
+   }
+}
+
+static void uri_all( const std::string& w )
+{
+   lang_rec( "uri", "URI", w, accept_rule< uri::URI >( w ) );
+   lang_rec( "uri", "URI_reference", w, accept_rule< uri::URI_reference >( w ) );
+   lang_rec( "uri", "absolute_URI", w, accept_rule< uri::absolute_URI >( w ) );
+}
+static void ip4( const std::string& w )
+{
+   lang_rec( "uri", "IPv4address", w, accept_rule< uri::IPv4address >( w ) );
+}
+static void ip6( const std::string& w )
+{
+   lang_rec( "uri", "IPv6address", w, accept_rule< uri::IPv6address >( w ) );
+}
+
+static void section_uri( bool thorough, unsigned seed )
+{
+   Gen g( seed );
+   vt::for_all_strings( "a1:/?#[]@.%-", thorough ? 5 : 4, [ & ]( const std::string& w ) {
+      uri_all( w );
+   } );
+   // IPv4: every combination of interesting octets, plus structural variations
+   const std::vector< std::string > oct = { "0", "1", "9", "10", "99", "100", "199", "200", "249", "250", "255", "256", "260", "299", "300", "00", "01", "001", "", "a", "1a" };
+   const std::vector< std::string > few = { "0", "9", "25", "255", "256", "01", "" };
+   for( const auto& a : oct ) {
+      for( const auto& b : few ) {
+         for( const auto& c : few ) {
+            for( const auto& d : oct ) {
+               const std::string w = a + "." + b + "." + c + "." + d;
+               ip4( w );
+               if( a.size() < 3 && d.size() < 3 ) {
+                  uri_all( "//" + w );
+                  uri_all( "s://" + w + "x" );
+               }
+            }
+         }
+      }
+   }
+   vt::for_all_strings( "0125.", thorough ? 8 : 6, [ & ]( const std::string& w ) {
+      ip4( w );
+   } );
+   for( const char* w : { "1.2.3", "1.2.3.4.5", "1.2.3.4.", ".1.2.3.4", "1..2.3", "1.2.3.4x", "255.255.255.255", "256.1.1.1", "1.1.1.15", "1.1.1.1" } ) {
+      ip4( w );
+      uri_all( std::string( "//" ) + w );
+      uri_all( std::string( "http://" ) + w + "/p?q#f" );
+      uri_all( std::string( "//" ) + w + ":80" );
+   }
+   // IPv6: every shape -- l groups, optional "::", r groups, optional embedded IPv4 -- with group lengths 1 / 4 / 5
+   const std::vector< std::string > grp = { "1", "ffff", "0a0B", "12345", "g", "" };
+   for( int l = 0; l <= 8; ++l ) {
+      for( int cc = 0; cc <= 1; ++cc ) {
+         for( int r = 0; r <= 8 - ( cc ? 0 : l ) && r <= 8; ++r ) {
+            for( int v4 = 0; v4 <= 1; ++v4 ) {
+               for( int variant = 0; variant < ( thorough ? 6 : 3 ); ++variant ) {
+                  std::string w;
+                  for( int i = 0; i < l; ++i ) {
+                     if( i )
+                        w += ":";
+                     w += ( variant == 1 && i == l - 1 ) ? grp[ 3 ] : ( variant == 2 && i == 0 ) ? grp[ 1 ] : ( variant == 3 && i == 0 ) ? grp[ 4 ] : grp[ ( i + variant ) % 3 ];
+                  }
+                  if( cc )
+                     w += "::";
+                  else if( l && ( r || v4 ) )
+                     w += ":";
+                  for( int i = 0; i < r; ++i ) {
+                     if( i )
+                        w += ":";
+                     w += grp[ ( i + 1 + variant ) % 3 ];
+                  }
+                  if( v4 ) {
+                     if( r )
+                        w += ":";
+                     w += ( variant == 4 ) ? "1.2.3.256" : ( variant == 5 ) ? "1.2.3" : "1.2.3.4";
+                  }
+                  ip6( w );
+                  if( variant == 0 ) {
+                     uri_all( "//[" + w + "]" );
+                     uri_all( "x://[" + w + "]:8/" );
+                  }
+               }
+            }
+         }
+      }
+   }
+   vt::for_all_strings( "1f:.", thorough ? 8 : 6, [ & ]( const std::string& w ) {
+      ip6( w );
+   } );
+   // URIs sampled from the RFC grammar, and single-edit mutations
+   const std::string interesting( "a1Z:/?#[]@.%-_~!$&'()*+,;= \x7f\xc3\"<>\\^`{|}", 43 );
+   auto pchars = [ & ]() {
+      std::string s;
+      const unsigned n = g.r( 4 );
+      for( unsigned i = 0; i < n; ++i )
+         s += g.pick( { "a", "Z", "1", "-", ".", "_", "~", "%41", "%fF", "!", "$", "&", "'", "(", ")", "*", "+", ",", ";", "=", ":", "@" } );
+      return s;
+   };
+   auto host = [ & ]() -> std::string {
+      switch( g.r( 6 ) ) {
+         case 0:
+            return "1.2.3.4";
+         case 1:
+            return "[::1]";
+         case 2:
+            return "[1:2:3:4:5:6:7:8]";
+         case 3:
+            return "[v1.a:b]";
+         case 4:
+            return "";
+         default:
+            return g.pick( { "example.com", "a", "a-b.c", "%41", "1.2.3.4x", "1.2.3.4.5", "999.1.1.1", "a_b~", "!$&'()*+,;=" } );
+      }
+   };
+   auto authority = [ & ]() {
+      std::string s;
+      if( g.r( 3 ) == 0 )
+         s += g.pick( { "u", "u:p", "", "%41:", "a.b" } ) + "@";
+      s += host();
+      if( g.r( 3 ) == 0 )
+         s += ":" + g.pick( { "", "0", "80", "65536", "0080" } );
+      return s;
+   };
+   auto path_abempty = [ & ]() {
+      std::string s;
+      const unsigned n = g.r( 3 );
+      for( unsigned i = 0; i < n; ++i )
+         s += "/" + pchars();
+      return s;
+   };
+   const int nuri = thorough ? 30000 : 2500;
+   for( int i = 0; i < nuri; ++i ) {
+      std::string w;
+      const bool rel = g.r( 3 ) == 0;
+      if( !rel )
+         w += g.pick( { "http", "a", "a+b-c.d", "Z9", "urn" } ) + ":";
+      switch( g.r( 4 ) ) {
+         case 0:
+            w += "//" + authority() + path_abempty();
+            break;
+         case 1:
+            w += "/" + ( g.r( 2 ) ? pchars() + path_abempty() : std::string() );
+            break;
+         case 2:
+            w += g.pick( { "a", "b.c", "x@y", "%41" } ) + path_abempty();
+            break;
+         default:
+            break;
+      }
+      if( g.r( 3 ) == 0 )
+         w += "?" + pchars() + g.pick( { "", "/", "?", "/?" } );
+      if( g.r( 3 ) == 0 )
+         w += "#" + pchars() + g.pick( { "", "/", "?" } );
+      if( w.size() > 48 )
+         continue;
+      uri_all( w );
+      for( int m = 0; m < 4; ++m ) {
+         uri_all( g.mutate( w, interesting ) );
+      }
+   }
+}
+
 int main( int argc, char** argv )
 {
    if( argc < 4 ) {
@@ -1136,6 +1479,12 @@ int main( int argc, char** argv )
    }
    else if( section == "integer" ) {
       section_integer( thorough );
+   }
+   else if( section == "json" ) {
+      section_json( thorough, seed );
+   }
+   else if( section == "uri" ) {
+      section_uri( thorough, seed );
    }
    else if( section == "codecs" ) {
       section_codecs( thorough, seed );
